@@ -3,5 +3,8 @@
 package main
 
 var verifHarnesses = map[string]func(){
-	"VerifC17Mcrew": VerifC17Mcrew,
+	"VerifC17Mcrew":      VerifC17Mcrew,
+	"VerifC16Faults":     VerifC16Faults,
+	"VerifC16Routing":    VerifC16Routing,
+	"VerifC16Concurrent": VerifC16Concurrent,
 }
